@@ -9,5 +9,5 @@ CONSTANTS
   Causal = TRUE
   LocalSend = "blocking"
 VIEW View
-INVARIANTS TypeOK ResultsAreOwnAnswers ReturnedIsCollected WaitsOnlyWhileIncomplete EndsForAReason ErrIffDeadline NoStuckSurvey NoBlockedCallback CanFinish
+INVARIANTS TypeOK HeardAreReturned RegistryIsInFlight RegistryEmptyAfterAll ResultsAreOwnAnswers ReturnedIsCollected WaitsOnlyWhileIncomplete EndsForAReason ErrIffDeadline NoStuckSurvey NoBlockedCallback CanFinish
 CHECK_DEADLOCK FALSE
